@@ -21,6 +21,51 @@ fn dispatch(op: &str, args: &[&str]) -> String {
     }
 }
 
+/// run one case in a forked child; its outcome line comes back through a pipe. The child is killed after 90 s.
+fn isolated(op: &str, args: &[&str]) -> String {
+    unsafe {
+        let mut fds = [0 as libc::c_int; 2];
+        if libc::pipe(fds.as_mut_ptr()) != 0 { return "harness-pipe-failed".to_string(); }
+        let pid = libc::fork();
+        if pid < 0 { return "harness-fork-failed".to_string(); }
+        if pid == 0 {
+            libc::close(fds[0]);
+            let r = dispatch(op, args);
+            let b = r.as_bytes();
+            let mut off = 0;
+            while off < b.len() {
+                let n = libc::write(fds[1], b[off..].as_ptr() as *const libc::c_void, b.len() - off);
+                if n <= 0 { break; }
+                off += n as usize;
+            }
+            libc::_exit(0);
+        }
+        libc::close(fds[1]);
+        let mut acc: Vec<u8> = vec![];
+        let t0 = std::time::Instant::now();
+        let mut timed_out = false;
+        loop {
+            let left = 90_000i64 - t0.elapsed().as_millis() as i64;
+            if left <= 0 { timed_out = true; break; }
+            let mut p = libc::pollfd { fd: fds[0], events: libc::POLLIN, revents: 0 };
+            let rc = libc::poll(&mut p, 1, left as libc::c_int);
+            if rc < 0 { continue; }
+            if rc == 0 { timed_out = true; break; }
+            let mut buf = [0u8; 65536];
+            let n = libc::read(fds[0], buf.as_mut_ptr() as *mut libc::c_void, buf.len());
+            if n <= 0 { break; }
+            acc.extend_from_slice(&buf[..n as usize]);
+        }
+        libc::close(fds[0]);
+        libc::kill(pid, libc::SIGKILL);
+        let mut st = 0;
+        libc::waitpid(pid, &mut st, 0);
+        if timed_out { return "spin # harness: case did not finish within 90 s".to_string(); }
+        if acc.is_empty() { return "crashed".to_string(); }
+        String::from_utf8_lossy(&acc).to_string()
+    }
+}
+
 fn main() {
     util::silence_panics();
     let stdin = io::stdin();
@@ -39,7 +84,10 @@ fn main() {
         let line = line.trim();
         if line.is_empty() || line.starts_with('#') { continue; }
         let toks: Vec<&str> = line.split_whitespace().collect();
-        let r = dispatch(toks[0], &toks[1..]);
+        // `gui` cases start real threads of the code under test; one that cannot be stopped (a spinning receive
+        // thread) would stay behind, burn a core and distort the CPU measurements of every later case: each such
+        // case runs in a forked child (this process is single-threaded here) that is discarded afterwards.
+        let r = if toks[0] == "gui" { isolated(toks[0], &toks[1..]) } else { dispatch(toks[0], &toks[1..]) };
         writeln!(stdout, "@@ {}", r).unwrap();
         stdout.flush().unwrap();
     }
